@@ -90,8 +90,34 @@ func callsTo(fn *ssa.Function, name string) []ssa.CallInstruction {
 // locals (`*t0 = v; rundefers; t = *t0; return t`); the spilled loads are replaced in place by the
 // value stored in the same block, so rules see the value the source returns.
 func returns(fn *ssa.Function) []*ssa.Return {
-	return returnsD(fn, 0)
+	rs := returnsD(fn, 0)
+	// an error result that is known to be nil on this way out (`return ok, err` after `if err != nil {return}`,
+	// named results) is presented as the nil constant, which is what the source means
+	if gWorld != nil {
+		for _, r := range rs {
+			for i, v := range r.Results {
+				if _, isC := v.(*ssa.Const); isC || !isErrorType(v.Type()) {
+					continue
+				}
+				if knownNil[r] == nil {
+					knownNil[r] = map[int]bool{}
+					want := render(v) + " == nil"
+					for _, f := range gWorld.factsAt(r) {
+						if f.Expr == want {
+							knownNil[r][i] = true
+						}
+					}
+				}
+				if knownNil[r][i] {
+					r.Results[i] = ssa.NewConst(nil, v.Type())
+				}
+			}
+		}
+	}
+	return rs
 }
+
+var knownNil = map[*ssa.Return]map[int]bool{}
 
 // tailHelper: the new helper whose results this return hands on unchanged (`return helper(args)`).
 func tailHelper(r *ssa.Return) *ssa.Function {
@@ -156,6 +182,16 @@ func returnsD(fn *ssa.Function, depth int) []*ssa.Return {
 				out = append(out, returnsD(h, depth+1)...)
 				return
 			}
+			if vs := splitReturn(r); len(vs) > 0 {
+				out = append(out, vs...)
+				return
+			}
+			if depth < 3 {
+				if vs := structTail(r, depth); len(vs) > 0 {
+					out = append(out, vs...)
+					return
+				}
+			}
 			out = append(out, r)
 		}
 	})
@@ -218,6 +254,11 @@ func (w *World) requireFacts(rule, keyPrefix string, at ssa.Instruction, wants .
 }
 
 func posOf(ins ssa.Instruction) token.Pos {
+	if r, ok := ins.(*ssa.Return); ok {
+		if _, isV := virtReturns[r]; isV {
+			return retPos(r)
+		}
+	}
 	if ins.Pos().IsValid() {
 		return ins.Pos()
 	}
